@@ -90,7 +90,7 @@ class NexusMachine(Machine):
         n_init = sw.randint(3, 8 if tier == "quick" else 12)
         n_ops = sw.randint(4, 30 if tier == "quick" else 45)
         kinds = ["set", "read", "freeze", "unfreeze", "replace", "replace_child", "set_func", "setitem", "add_dep",
-                 "new_func", "new_param", "new_alias", "new_seq", "new_fallback", "new_binop", "value_dict", "drop", "arm", "cycle"]
+                 "new_func", "new_param", "new_alias", "new_seq", "new_fallback", "new_binop", "value_dict", "drop", "arm", "cycle", "freeze_raw"]
         weights = {}
         for k in kinds:
             weights[k] = sw.choice([0, 0, 1, 2, 4]) if k not in ("set", "read") else sw.choice([3, 6, 10])
@@ -184,6 +184,10 @@ class GenState(object):
         self.next_id = 0
         self.registered = {}  # nexus mode: name -> node id
         self.cycle_done = False
+        self.opaque = set()  # nodes frozen without a preceding read (value unknown to the reference)
+
+    def depends_on_opaque(self, nid):
+        return any(self.g.reaches(nid, o) for o in self.opaque if self.g.has(o))
 
     # -- helpers
     def ids(self, pred=None):
@@ -263,6 +267,9 @@ class GenState(object):
         if k == "freeze":
             cand = self.ids(lambda n: n.kind != "P" and not n.frozen)
             return ["freeze", rng.choice(cand)] if cand else None
+        if k == "freeze_raw":
+            cand = self.ids(lambda n: n.kind != "P" and not n.frozen)
+            return ["freeze_raw", rng.choice(cand)] if cand else None
         if k == "unfreeze":
             cand = self.ids(lambda n: n.frozen)
             return ["unfreeze", rng.choice(cand)] if cand else None
@@ -404,11 +411,22 @@ class GenState(object):
             return g.has(op[1])
         if k == "freeze":
             return g.has(op[1]) and g.nodes[op[1]].kind != "P" and not g.nodes[op[1]].frozen
+        if k == "freeze_raw":
+            # freeze WITHOUT reading first: the frozen value is whatever the node had cached, which the definition-level reference
+            # cannot know.  The node is frozen with an opaque value: reads that depend on it are executed but not compared until it
+            # is unfrozen again (what must hold is that everything is right again afterwards).
+            if not (g.has(op[1]) and g.nodes[op[1]].kind != "P" and not g.nodes[op[1]].frozen):
+                return False
+            g.nodes[op[1]].frozen = True
+            g.nodes[op[1]].frozen_val = None
+            self.opaque.add(op[1])
+            return True
         if k == "unfreeze":
             if not (g.has(op[1]) and g.nodes[op[1]].frozen):
                 return False
             g.nodes[op[1]].frozen = False
             g.nodes[op[1]].frozen_val = None
+            self.opaque.discard(op[1])
             return True
         if k == "replace":
             old, new = op[1], op[2]
@@ -538,7 +556,8 @@ class Exec(object):
     def checked_read(self, step, nid, what="read"):
         g = self.gs.g
         before = self.snapshot_counts()
-        exp = g.safe_eval(nid)
+        opaque = self.gs.depends_on_opaque(nid)
+        exp = g.safe_eval(nid) if not opaque else ("opaque", None)
         node = self.real[nid]
         fault = False
         try:
@@ -565,6 +584,10 @@ class Exec(object):
             self.res.bump("fault_F2_fired")
             self.log.add([what, nid], "fault", None)
             return None
+        if opaque:
+            self.res.bump("read_not_compared_opaque_frozen_input")
+            self.log.add([what, nid], "opaque")
+            return None  # (call-count oracles above were still applied; they do not depend on values)
         if exp[0] == "ok":
             if got[0] != "ok":
                 self.viol("value", "raise", "read of node %d raised %s, reference value %r" % (nid, got[1], exp[1]), step, exp[1], got[1])
@@ -653,6 +676,9 @@ class Exec(object):
                 g.nodes[op[1]].frozen_val = v.tolist() if isinstance(v, np.ndarray) else v
             else:
                 mut = False
+        elif k == "freeze_raw":
+            R[op[1]].freeze()
+            self.res.probe("freeze_while_stale" if R[op[1]]._stale else "freeze_raw_fresh")
         elif k == "unfreeze":
             R[op[1]].unfreeze()
             self.mark_dirty(op[1])
@@ -724,6 +750,25 @@ class Exec(object):
         exp = {}
         errs = []
         first_exc = None
+        opq = set(name for name, nid in gs.registered.items() if gs.depends_on_opaque(nid))
+        if opq:
+            # nodes downstream of a node frozen without a read are not comparable; with 'fail' one of them may legitimately raise
+            self.res.bump("read_not_compared_opaque_frozen_input")
+            b0 = self.snapshot_counts()
+            try:
+                self.nexus.get_value_dict(error_behavior="ignore")
+            except SimFault:
+                self.res.bump("fault_F2_fired")
+            for i, (c1, k1) in self.snapshot_counts().items():
+                c0, k0 = b0.get(i, (0, 0))
+                if k1 - k0 > 1:
+                    self.viol("once", "calls", "function node %d evaluated %d times during one get_value_dict" % (i, k1 - k0), step, 1, k1 - k0)
+                if c1 > c0 and not self.dirty.get(i, True):
+                    self.viol("needed", "calls", "function node %d re-evaluated by get_value_dict without an input assignment" % i, step, 0, c1 - c0)
+                if k1 > k0:
+                    self.dirty[i] = False
+            self.log.add(["value_dict", behaviour], "opaque")
+            return
         for name, nid in gs.registered.items():
             r = g.safe_eval(nid)
             if r[0] == "ok":
